@@ -36,7 +36,7 @@ func (vc *VC) execStmt(s ast.Stmt, st *State) *State {
 // anchored applies ghost asserts/assumes attached to a statement by textual anchor.
 func (vc *VC) anchored(s ast.Stmt, st *State, when string) *State {
 	fr := vc.cur()
-	if fr.fc == nil || (len(fr.fc.Asserts) == 0 && len(fr.fc.Assumes) == 0) {
+	if fr.fc == nil || (len(fr.fc.Asserts) == 0 && len(fr.fc.Assumes) == 0 && len(fr.fc.Ghosts) == 0) {
 		return st
 	}
 	switch s.(type) {
@@ -44,8 +44,15 @@ func (vc *VC) anchored(s ast.Stmt, st *State, when string) *State {
 		return st
 	}
 	src := vc.src(s)
+	for _, g := range fr.fc.Ghosts {
+		if g.When == when && g.Anchor == src {
+			vc.anchorHit(g)
+			vc.defineGhost(g.Clause, st, s.Pos())
+		}
+	}
 	for _, a := range fr.fc.Asserts {
 		if a.When == when && a.Anchor == src {
+			vc.anchorHit(a)
 			env := vc.localEnv(st, s.Pos())
 			c := vc.specBool(a.Clause.Expr, env)
 			vc.oblige("assert", a.Clause.Name, s.Pos(), st.pc, c, a.Clause.Src)
@@ -54,11 +61,85 @@ func (vc *VC) anchored(s ast.Stmt, st *State, when string) *State {
 	}
 	for _, a := range fr.fc.Assumes {
 		if a.When == when && a.Anchor == src {
+			vc.anchorHit(a)
 			env := vc.localEnv(st, s.Pos())
 			vc.assume(st.pc, vc.specBool(a.Clause.Expr, env))
 		}
 	}
 	return st
+}
+
+func (vc *VC) anchorHit(a AnchoredClause) {
+	if vc.anchorHits == nil {
+		vc.anchorHits = map[string]int{}
+	}
+	vc.anchorHits[a.Clause.Kind+"|"+a.Anchor+"|"+a.Clause.Src]++
+}
+
+// checkAnchors reports anchored clauses whose anchor statement was not found
+// (a stale anchor would otherwise silently drop an assertion).
+func (vc *VC) checkAnchors(fc *FuncContract) {
+	if fc == nil {
+		return
+	}
+	for _, lst := range [][]AnchoredClause{fc.Asserts, fc.Assumes, fc.Ghosts} {
+		for _, a := range lst {
+			if vc.anchorHits[a.Clause.Kind+"|"+a.Anchor+"|"+a.Clause.Src] == 0 {
+				vc.unsupportedf(token.NoPos, "anchor %q of %s clause not found in the function body", a.Anchor, a.Clause.Kind)
+			}
+		}
+	}
+}
+
+// defineGhost introduces a ghost set/array by comprehension:
+//
+//	ghost before "anchor" S: forall x T :: S[x] == e      (e must not mention S)
+//
+// A fresh array constant is declared and its defining equation is assumed.
+// This is a conservative extension (such an array always exists), so it can
+// never make the assumptions inconsistent.
+func (vc *VC) defineGhost(c Clause, st *State, pos token.Pos) {
+	q, ok := c.Expr.(CQuant)
+	if !ok || !q.Forall || len(q.Vars) != 1 || c.Name == "" {
+		vc.unsupportedf(pos, "ghost %s: expected `name: forall x T :: name[x] == e`", c.Name)
+		return
+	}
+	eq, ok := q.Body.(CBinary)
+	if !ok || (eq.Op != "==" && eq.Op != "<==>") {
+		vc.unsupportedf(pos, "ghost %s: body must be an equation", c.Name)
+		return
+	}
+	ix, ok := eq.X.(CIndex)
+	if !ok {
+		vc.unsupportedf(pos, "ghost %s: left side must be %s[x]", c.Name, c.Name)
+		return
+	}
+	if id, ok := ix.X.(CIdent); !ok || id.Name != c.Name {
+		vc.unsupportedf(pos, "ghost %s: left side must be %s[x]", c.Name, c.Name)
+		return
+	}
+	if iv, ok := ix.I.(CIdent); !ok || iv.Name != q.Vars[0].Name {
+		vc.unsupportedf(pos, "ghost %s: index must be the bound variable", c.Name)
+		return
+	}
+	if mentions(eq.Y, c.Name) {
+		vc.unsupportedf(pos, "ghost %s: definition mentions itself", c.Name)
+		return
+	}
+	env := vc.localEnv(st, pos)
+	ks, kt := vc.specSort(q.Vars[0].Type, env.pkg)
+	n := env.child()
+	bv := Term{q.Vars[0].Name + "?", ks, kt}
+	n.bound[q.Vars[0].Name] = bv
+	body := vc.spec(eq.Y, n)
+	asort := Sort(fmt.Sprintf("(Array %s %s)", ks, body.Sort))
+	g := vc.freshOfSort(c.Name, asort, nil)
+	vc.assumes = append(vc.assumes, fmt.Sprintf("(assert (forall ((%s %s)) (! (= (select %s %s) %s) :pattern ((select %s %s)))))", bv.S, ks, g.S, bv.S, body.S, g.S, bv.S))
+	fr := vc.cur()
+	if fr.ghosts == nil {
+		fr.ghosts = map[string]Value{}
+	}
+	fr.ghosts[c.Name] = g
 }
 
 func (vc *VC) execStmt1(s ast.Stmt, st *State) *State {
